@@ -387,4 +387,67 @@ theorem foldl_stepObs_obs (time : Int) (rows : List RawRow) (mapped : List (List
       | some i => exact ⟨observeOne_obs _ _ _ _ _ _, observeOne_strats _ _ _ _ _ _⟩
     exact ⟨h1.1.trans h0.1, h1.2.trans h0.2⟩
 
+/-! ### the order in which `gather_results` reaches the observations of a phase -/
+
+theorem insertGroup_perm (o : Obs) (g : List ((String × Option (List String)) × List Obs)) :
+    ((insertGroup o g).flatMap (·.2)).Perm (g.flatMap (·.2) ++ [o]) := by
+  induction g with
+  | nil => simp [insertGroup]
+  | cons kv gs ih =>
+    obtain ⟨k, os⟩ := kv
+    unfold insertGroup
+    split
+    · simp only [List.flatMap_cons, List.append_assoc]
+      exact List.Perm.append_left os List.perm_append_comm
+    · simp only [List.flatMap_cons, List.append_assoc]
+      exact List.Perm.append_left os ih
+
+theorem foldl_insertGroup_perm (os : List Obs) (g : List ((String × Option (List String)) × List Obs)) :
+    ((os.foldl (fun g o => insertGroup o g) g).flatMap (·.2)).Perm (g.flatMap (·.2) ++ os) := by
+  induction os generalizing g with
+  | nil => simp
+  | cons o os ih =>
+    rw [List.foldl_cons]
+    refine (ih (insertGroup o g)).trans ?_
+    have := (insertGroup_perm o g).append_right os
+    simpa [List.append_assoc] using this
+
+/-- `traversal` only reorders: every observation of the phase is reached exactly once -/
+theorem traversal_perm (os : List Obs) : (traversal os).Perm os := by
+  have := foldl_insertGroup_perm os []
+  simpa [traversal, groups] using this
+
+theorem mem_traversal (os : List Obs) (o : Obs) : o ∈ traversal os ↔ o ∈ os :=
+  (traversal_perm os).mem_iff
+
+theorem traversal_length (os : List Obs) : (traversal os).length = os.length :=
+  (traversal_perm os).length_eq
+
+theorem traversal_nodup_names (os : List Obs) (h : (os.map (·.name)).Nodup) :
+    ((traversal os).map (·.name)).Nodup :=
+  (((traversal_perm os).map (·.name)).nodup_iff).mpr h
+
+/-- observations with one and the same group key are reached in registration order -/
+theorem traversal_single_group (os : List Obs) (k : String × Option (List String)) (h : ∀ o ∈ os, o.groupKey = k) :
+    traversal os = os := by
+  have gen : ∀ (os pre : List Obs), (∀ o ∈ os, o.groupKey = k) → pre ≠ [] →
+      (os.foldl (fun g o => insertGroup o g) [(k, pre)]) = [(k, pre ++ os)] := by
+    intro os
+    induction os with
+    | nil => intro pre _ _; simp
+    | cons o os ih =>
+      intro pre h hp
+      rw [List.foldl_cons]
+      have : insertGroup o [(k, pre)] = [(k, pre ++ [o])] := by
+        simp [insertGroup, h o List.mem_cons_self]
+      rw [this, ih (pre ++ [o]) (fun o' ho' => h o' (List.mem_cons_of_mem _ ho')) (by simp)]
+      simp
+  cases os with
+  | nil => simp [traversal, groups]
+  | cons o os =>
+    have h0 : insertGroup o [] = [(k, [o])] := by simp [insertGroup, h o List.mem_cons_self]
+    simp only [traversal, groups, List.foldl_cons, h0]
+    rw [gen os [o] (fun o' ho' => h o' (List.mem_cons_of_mem _ ho')) (by simp)]
+    simp
+
 end Viv.Results
